@@ -400,6 +400,42 @@ impl Space for ScaleCli {
     }
 }
 
+/// deep and long-chained source (the C08 syntactic shapes) through the library front end
+struct Nesting {
+    texts: Vec<(String, String)>,
+}
+
+impl Space for Nesting {
+    fn id(&self) -> String {
+        "nesting-shapes-library".into()
+    }
+    fn size(&self) -> u64 {
+        self.texts.len() as u64
+    }
+    fn profile(&self) -> Profile {
+        Profile::Poison
+    }
+    fn chunk(&self) -> u64 {
+        4
+    }
+    fn case_timeout_ms(&self) -> u64 {
+        120_000
+    }
+    fn describe(&self, i: u64) -> String {
+        format!("front end on shape {}", self.texts[i as usize].0)
+    }
+    fn run(&self, ctx: &mut Ctx, i: u64) -> Outcome {
+        let (name, text) = &self.texts[i as usize];
+        let mut o = check_text(ctx, text);
+        for v in &mut o.violations {
+            v.input = format!("shape {name}");
+            v.signature = v.input.clone();
+        }
+        ctx.trim();
+        o
+    }
+}
+
 pub fn spaces(tier: Tier) -> Vec<Box<dyn Space>> {
     let t = tier == Tier::Thorough;
     let mut v: Vec<Box<dyn Space>> = Vec::new();
@@ -410,6 +446,7 @@ pub fn spaces(tier: Tier) -> Vec<Box<dyn Space>> {
     if t {
         v.push(Box::new(Corpus { profile: Profile::Fast, files, double: true }));
     }
+    v.push(Box::new(Nesting { texts: crate::props::c08::syntactic_shape_texts(if t { &[4, 16, 64, 200, 256, 300, 1024, 4096] } else { &[4, 64, 128, 200, 230, 256, 1024] }) }));
     let units = diagnostic_units();
     v.push(Box::new(Scale { profile: Profile::Poison, units: units.clone(), ks: if t { (0..=14).collect() } else { vec![0, 1, 6, 11] } }));
     // thinned for the subprocess runs
